@@ -1,7 +1,11 @@
 package harness
 
 import (
+	"bytes"
+	"compress/gzip"
+	"encoding/json"
 	"fmt"
+	"io"
 	"os"
 	"path/filepath"
 	"reflect"
@@ -23,17 +27,20 @@ import (
 // aReference runs the real parse -> transform -> serialize code on a fresh, single-record pipeline outside the
 // concurrent system: the differential oracle for "what a record should look like upstream"
 type aReference struct {
-	conf   run.Config
-	schema base.LogSchema
-	cache  map[string]*aRefResult
-	outIdx int // which output's serializer the reference uses
+	conf    run.Config
+	schema  base.LogSchema
+	cache   map[string]*aRefResult
+	outIdx  int    // which output's serializer the reference uses
+	rawOnly bool   // the output's streams are not msgpack events (Datadog JSON): only raw and size are filled
+	tag     string // tag given to the serializer (the Datadog format carries it inside every record); "" = "ref"
 }
 
 type aRefResult struct {
 	entry   *forwardprotocol.EventEntry
-	dropped bool // dropped by a transform
-	failed  bool // rejected by the parser
-	size    int  // serialized length
+	dropped bool   // dropped by a transform
+	failed  bool   // rejected by the parser
+	size    int    // serialized length
+	raw     []byte // the serialized stream itself (kept for outputs whose streams are not msgpack: Datadog)
 }
 
 func newAReference(yaml string) (*aReference, error) {
@@ -55,11 +62,17 @@ func newAReference(yaml string) (*aReference, error) {
 
 // eval processes one framed message (no trailing newline) on a pipeline built from scratch
 func (ref *aReference) eval(message string) (res *aRefResult) {
-	if r, ok := ref.cache[message]; ok {
+	ck := message
+	tag := "ref"
+	if ref.tag != "" {
+		tag = ref.tag
+		ck = tag + "\x00" + message
+	}
+	if r, ok := ref.cache[ck]; ok {
 		return r
 	}
 	res = &aRefResult{}
-	ref.cache[message] = res
+	ref.cache[ck] = res
 	defer func() {
 		// the sequential code itself may panic on hostile input (that is what C07 reports from inside the agent); the
 		// reference then simply has no opinion
@@ -79,7 +92,7 @@ func (ref *aReference) eval(message string) (res *aRefResult) {
 	procCounter := base.NewLogProcessCounter(mf.AddOrGetPrefix("process_", nil, nil), ref.schema,
 		ref.schema.MustCreateFieldLocators(ref.conf.MetricKeys), []string{ref.conf.OutputBuffersPairs[0].Name})
 	transforms := bsupport.NewTransformsFromConfig(ref.conf.Transformations, ref.schema, logger.Root(), procCounter)
-	serializer := ref.conf.OutputBuffersPairs[ref.outIdx].OutputConfig.Value.NewSerializer(logger.Root(), ref.schema, "ref")
+	serializer := ref.conf.OutputBuffersPairs[ref.outIdx].OutputConfig.Value.NewSerializer(logger.Root(), ref.schema, tag)
 	record := parser.Parse([]byte(message), time.Unix(0, 0))
 	if record == nil {
 		res.failed = true
@@ -92,6 +105,10 @@ func (ref *aReference) eval(message string) (res *aRefResult) {
 	}
 	stream := serializer.SerializeRecord(record)
 	res.size = len(stream)
+	if ref.rawOnly {
+		res.raw = append([]byte(nil), stream...)
+		return res
+	}
 	var e forwardprotocol.EventEntry
 	if err := msgpack.Unmarshal(stream, &e); err != nil {
 		res.failed = true
@@ -171,7 +188,7 @@ type aView struct {
 }
 
 var propOfProfile = map[string]string{
-	"c01": "C01", "c01two": "C01", "nofault": "C01", "limits": "C01", "c05": "C05", "c06": "C06", "c07": "C07", "c07big": "C07", "c11": "C11", "c11big": "C11", "c12": "C12",
+	"c01": "C01", "c01two": "C01", "nofault": "C01", "limits": "C01", "c05": "C05", "c06": "C06", "c07": "C07", "c07big": "C07", "c11": "C11", "c11big": "C11", "c11dd": "C11", "c12": "C12",
 	"c17a": "C17", "c18": "C18", "c19": "C19",
 }
 
@@ -330,6 +347,9 @@ func (r *aRun) evaluate(out *Outcome) {
 		r.oracleC07(v)
 	case "C11":
 		r.oracleC11(v)
+		if r.s.Datadog {
+			r.oracleC11Datadog(v)
+		}
 	case "C12":
 		r.oracleC12(v)
 	case "C17":
@@ -602,13 +622,16 @@ func (r *aRun) checkNoPhantoms(v *aView, prop string, alt ...*aReference) {
 // key tuples
 
 // tupleOf returns the values of the orchestration key fields of a record, as the agent sees them
-func (r *aRun) tupleOf(sr *aSentRec) []string {
-	kt := r.s.KeyTuples[sr.rec.Key%len(r.s.KeyTuples)]
+func (r *aRun) tupleOf(sr *aSentRec) []string { return r.s.tupleOfKey(sr.rec.Key) }
+
+// tupleOfKey returns the values of the orchestration key fields of records generated with key index k
+func (s *AScenario) tupleOfKey(k int) []string {
+	kt := s.KeyTuples[k%len(s.KeyTuples)]
 	sev := 6
 	fmt.Sscanf(kt[1], "%d", &sev)
 	vals := map[string]string{"app": kt[0], "level": aSeverities[sev%8], "pid": kt[2]}
 	var out []string
-	for _, k := range r.s.Keys {
+	for _, k := range s.Keys {
 		out = append(out, vals[k])
 	}
 	return out
@@ -619,12 +642,14 @@ func tupleKey(t []string) string { return fmt.Sprintf("%q", t) }
 var tmplPart = regexp.MustCompile(`\$\{(\w+)\[(-?\d*):(-?\d*)\]\}|\$\{(\w+)\}|\$(\w+)`)
 
 // expandTag is an independent implementation of the tag template for the templates the scenarios use
-func (r *aRun) expandTag(tuple []string) string {
+func (r *aRun) expandTag(tuple []string) string { return r.s.expandTag(tuple) }
+
+func (s *AScenario) expandTag(tuple []string) string {
 	vals := map[string]string{}
-	for i, k := range r.s.Keys {
+	for i, k := range s.Keys {
 		vals[k] = tuple[i]
 	}
-	return tmplPart.ReplaceAllStringFunc(r.s.Tag, func(m string) string {
+	return tmplPart.ReplaceAllStringFunc(s.Tag, func(m string) string {
 		g := tmplPart.FindStringSubmatch(m)
 		switch {
 		case g[1] != "":
@@ -1557,4 +1582,136 @@ func longLineBefore(stream string, off int, n int) bool {
 		}
 	}
 	return false
+}
+
+// ---------------------------------------------------------------------------------------------------------------
+// C11, Datadog format: every chunk the Datadog chunk maker produced is in its queue root after the last stop (its
+// consumer never takes one)
+
+const (
+	ddMaxBytes   = 5 * 1024 * 1024 // Datadog's documented limits for one request (uncompressed size, number of entries)
+	ddMaxRecords = 1000
+)
+
+func (r *aRun) oracleC11Datadog(v *aView) {
+	out := r.out
+	if len(r.stops) == 0 {
+		return
+	}
+	ref, err := newAReference(r.s.configYAML(""))
+	if err != nil {
+		out.Harness = "reference for the Datadog output: " + err.Error()
+		return
+	}
+	ref.rawOnly = true
+	for i, p := range ref.conf.OutputBuffersPairs {
+		if p.Name == "dd" {
+			ref.outIdx = i
+		}
+	}
+	files := r.stops[len(r.stops)-1].FilesDD
+	byDir := map[string][]string{}
+	for p := range files {
+		if strings.HasSuffix(p, "/.id") {
+			continue
+		}
+		d := p[:strings.LastIndexByte(p, '/')]
+		byDir[d] = append(byDir[d], p)
+	}
+	seen := map[string]int{}
+	for d, ps := range byDir {
+		sort.Strings(ps) // chunk ids are time+sequence: name order is emission order
+		lastSeq := map[string]int{}
+		for _, p := range ps {
+			out.Obligations++
+			out.probe("datadog_chunks_checked", 1)
+			name := p[strings.LastIndexByte(p, '/')+1:]
+			if !strings.HasSuffix(name, ".dd") {
+				r.note("C11", "dd-chunk-name", "dd-chunk-name", "file %s in the Datadog queue does not carry the output's chunk id suffix", p)
+				continue
+			}
+			zr, err := gzip.NewReader(bytes.NewReader(files[p]))
+			if err != nil {
+				r.note("C11", "dd-malformed", "dd-malformed", "Datadog chunk %s is not gzip: %v", name, err)
+				continue
+			}
+			plain, err := io.ReadAll(zr)
+			if err != nil {
+				r.note("C11", "dd-malformed", "dd-malformed", "Datadog chunk %s does not decompress: %v", name, err)
+				continue
+			}
+			var elems []json.RawMessage
+			if err := json.Unmarshal(plain, &elems); err != nil {
+				r.note("C11", "dd-malformed", "dd-malformed", "Datadog chunk %s is not a JSON array: %v (%q...)", name, err, clip(string(plain), 60))
+				continue
+			}
+			if len(elems) == 0 {
+				r.note("C11", "dd-empty", "dd-empty", "Datadog chunk %s holds no record", name)
+			}
+			if len(elems) > ddMaxRecords {
+				r.note("C11", "dd-record-limit", "dd-record-limit", "Datadog chunk %s holds %d records, the limit is %d", name, len(elems), ddMaxRecords)
+			}
+			if len(plain) > ddMaxBytes && len(elems) > 1 {
+				r.note("C11", "dd-size-limit", "dd-size-limit", "Datadog chunk %s is %d bytes uncompressed with %d records, the limit is %d", name, len(plain), len(elems), ddMaxBytes)
+			}
+			if os.Getenv("VERIF_DEBUG_DD") != "" {
+				fmt.Fprintf(os.Stderr, "DD chunk %s: %d records, %d bytes plain\n", name, len(elems), len(plain))
+			}
+			if len(plain) >= ddMaxBytes-2 {
+				out.probe("datadog_chunks_at_the_size_limit", 1)
+			}
+			if len(elems) == ddMaxRecords {
+				out.probe("datadog_chunks_at_the_record_limit", 1)
+			}
+			// the array is exactly '[' + elements joined by ',' + ']': nothing between, before or after
+			n := 2 + len(elems) - 1
+			for _, e := range elems {
+				n += len(e)
+			}
+			if len(elems) > 0 && n != len(plain) {
+				r.note("C11", "dd-malformed", "dd-padding", "Datadog chunk %s: %d bytes, its %d elements and delimiters account for %d", name, len(plain), len(elems), n)
+			}
+			for _, e := range elems {
+				var obj struct {
+					Log string `json:"log"`
+				}
+				_ = json.Unmarshal(e, &obj)
+				lg := obj.Log
+				if i := strings.IndexAny(lg, " \n"); i >= 0 {
+					lg = lg[:i]
+				}
+				sr := v.byStamp[lg]
+				if sr == nil || sr.rec.Raw != "" {
+					continue // unfinished tails and hostile material are judged by the Forward oracle of the same run
+				}
+				seen[lg]++
+				if sr.rec.Drop {
+					r.note("C11", "dd-filtered-record", "dd-filtered-record", "record %s carries the drop marker but is in Datadog chunk %s", lg, name)
+					continue
+				}
+				ref.tag = r.expandTag(r.tupleOf(sr))
+				want := ref.eval(framedMessage(sr))
+				if sr.rec.Multi == 0 && v.tails[sr] == "" && !bytes.Equal(want.raw, e) {
+					r.note("C11", "dd-altered", "dd-altered", "record %s in Datadog chunk %s is %q, the same record alone serializes to %q", lg, name, clip(string(e), 160), clip(string(want.raw), 160))
+				}
+				key := fmt.Sprintf("c%d", sr.client)
+				if sr.seq <= lastSeq[key] {
+					r.note("C11", "dd-order", "dd-order", "queue %s: record %s follows record n%d of the same connection", d, lg, lastSeq[key])
+				}
+				lastSeq[key] = sr.seq
+			}
+		}
+	}
+	for _, sr := range v.full {
+		if sr.rec.Raw != "" || sr.rec.Drop {
+			continue
+		}
+		out.Obligations++
+		switch n := seen[stampOf(sr)]; {
+		case n == 0 && v.dropped == 0:
+			r.note("C11", "dd-record-in-no-chunk", "dd-record-in-no-chunk", "record %s was read by the agent but is in no Datadog chunk", stampOf(sr))
+		case n > 1:
+			r.note("C11", "dd-record-twice", "dd-record-twice", "record %s is in %d Datadog chunks", stampOf(sr), n)
+		}
+	}
 }
